@@ -132,6 +132,7 @@ Print Assumptions C01_reachable_obs.
 Check C01_any_rz : forall rz R ts R', play false R ts = Ok (R', []) -> play rz R ts = Ok (R', []).
 Print Assumptions C01_any_rz.
 Check C01_fresh_bytes : forall S p vr ts,
+  pend p = [] ->   
   source_ok S vr -> canvas (scr p) -> ground (vt p) ->
   grows (g (scr p)) = grows (cur S) -> gcols (g (scr p)) = gcols (cur S) ->
   mmode (scr p) = MNone -> menc (scr p) = EDefault ->
@@ -323,24 +324,24 @@ Check C01tok_reparse : forall ts, forallb token_ok ts = true ->
   forall v, ground v -> exists v',
     advance v (ser_all ts) = (v', flat_map acts_of ts) /\ ground v' /\
     forall r l rz,
-      process (mkParser v r l rz) (ser_all ts) =
-      (do '(r', evs) <- perform_all rz r (flat_map acts_of ts) []; Ok (mkParser v' r' (l ++ evs) rz)).
+      process (mkParser v r l rz []) (ser_all ts) =
+      (do '(r', evs) <- perform_all rz r (flat_map acts_of ts) []; Ok (mkParser v' r' (l ++ evs) rz [])).
 Print Assumptions C01tok_reparse.
 Check C01tok_contents_formatted_bytes : forall s ts v,
   screen_ok s -> screen_wf s -> screen_attrs_ok s -> contents_formatted_t s = Ok ts -> ground v ->
   exists v',
     advance v (ser_all ts) = (v', flat_map acts_of ts) /\ ground v' /\
     forall r l rz,
-      process (mkParser v r l rz) (ser_all ts) =
-      (do '(r', evs) <- perform_all rz r (flat_map acts_of ts) []; Ok (mkParser v' r' (l ++ evs) rz)).
+      process (mkParser v r l rz []) (ser_all ts) =
+      (do '(r', evs) <- perform_all rz r (flat_map acts_of ts) []; Ok (mkParser v' r' (l ++ evs) rz [])).
 Print Assumptions C01tok_contents_formatted_bytes.
 Check C01tok_contents_diff_bytes : forall s p ts v,
   screen_ok s -> screen_wf s -> screen_attrs_ok s -> pen_ok (pen p) -> contents_diff_t s p = Ok ts -> ground v ->
   exists v',
     advance v (ser_all ts) = (v', flat_map acts_of ts) /\ ground v' /\
     forall r l rz,
-      process (mkParser v r l rz) (ser_all ts) =
-      (do '(r', evs) <- perform_all rz r (flat_map acts_of ts) []; Ok (mkParser v' r' (l ++ evs) rz)).
+      process (mkParser v r l rz []) (ser_all ts) =
+      (do '(r', evs) <- perform_all rz r (flat_map acts_of ts) []; Ok (mkParser v' r' (l ++ evs) rz [])).
 Print Assumptions C01tok_contents_diff_bytes.
 Check C01tok_reachable_inv : forall s, reachable s -> screen_ok s /\ screen_wf s /\ screen_attrs_ok s.
 Print Assumptions C01tok_reachable_inv.
